@@ -94,6 +94,11 @@ impl IndexRead {
                 return Err(Error::Transport { source });
             }
         };
+        if compressed_bytes.is_empty() {
+            // A zero-length file is what an interrupted write leaves behind: it holds no
+            // entries. (Whether it is legitimate there is for `Band::check_index_hunks`.)
+            return Ok(Some(Vec::new()));
+        }
         self.stats.index_hunks += 1;
         self.stats.compressed_index_bytes += compressed_bytes.len() as u64;
         let index_bytes = self.decompressor.decompress(&compressed_bytes)?;
@@ -118,6 +123,16 @@ impl IndexRead {
 
     // All hunk numbers present in all directories.
     pub async fn hunks_available(&self) -> Result<Vec<u32>> {
+        Ok(self
+            .hunk_lengths()
+            .await?
+            .into_iter()
+            .map(|(hunk_number, _len)| hunk_number)
+            .collect())
+    }
+
+    /// All hunk numbers present in all directories, with the length of each file.
+    pub(crate) async fn hunk_lengths(&self) -> Result<Vec<(u32, u64)>> {
         let subdirs = self
             .transport
             .list_dir("")
@@ -134,7 +149,10 @@ impl IndexRead {
                 entries
                     .into_iter()
                     .filter(|entry| entry.is_file())
-                    .filter_map(|entry| entry.name.parse::<u32>().ok())
+                    .filter_map(|entry| {
+                        let len = entry.len.unwrap_or(0);
+                        entry.name.parse::<u32>().ok().map(|n| (n, len))
+                    })
                     .sorted(),
             )
         }
